@@ -108,26 +108,44 @@ Definition spec_rcpt (cfg : config) (d : db) (n_accepted : Z) (addr : str) : opt
   else if (reject_unknown_user cfg && negb (known d addr)) then Some WhyUnknown
   else None.
 
-(** delivery of one accepted recipient (size and well-formedness already checked) *)
-Definition spec_deliver (cfg : config) (d : db) (addr : str) (m : message) : outcome * db :=
+(** bytes held by the mailbox mail for [addr] goes to: the role mailbox, or the
+    mailbox of the enabled user local@domain; a mailbox that does not exist
+    (yet) holds nothing *)
+Definition mailbox_usage (d : db) (addr : str) : Z :=
+  if is_role d addr then usage_of d (RoleStore addr)
+  else match extract_parts addr with
+       | Some (n, dom) => if user_enabled d n dom then usage_of d (UserStore n dom) else 0
+       | None => 0
+       end.
+
+(** "Enable quota checking" / "Quota limit in bytes": the message does not fit.
+    Decided for every recipient on the mailboxes as they are when the message
+    arrives (before any delivery of this transaction). *)
+Definition spec_over_quota (cfg : config) (d : db) (m : message) (addr : str) : bool :=
+  quota_enabled cfg && (quota_limit cfg <? mailbox_usage d addr + m_size m).
+
+(** delivery of one accepted recipient (size and well-formedness already
+    checked); [over] = this recipient's quota verdict *)
+Definition spec_deliver (cfg : config) (over : bool) (d : db) (addr : str) (m : message) : outcome * db :=
   match extract_parts addr with
   | None => (Refused WhySyntax, d)
   | Some (n, dom) =>
       let role := is_role d addr in
       let st := if role then RoleStore addr else UserStore n dom in
       if negb role && user_disabled d n dom then (Refused WhyDisabled, d)
-      else if quota_enabled cfg && (quota_limit cfg <? usage_of d st + m_size m) then (Refused WhyQuota, d)
+      else if over then (Refused WhyQuota, d)
       else
         let d1 := if role || user_exists d n dom then d else add_user d n dom in
         (FiledIn st (spec_folder cfg m), add_msg d1 (mkFiled st (spec_folder cfg m) (m_size m)))
   end.
 
-Fixpoint spec_deliver_all (cfg : config) (d : db) (addrs : list str) (m : message) : list outcome * db :=
+Fixpoint spec_deliver_all (cfg : config) (over : str -> bool) (d : db) (addrs : list str) (m : message)
+  : list outcome * db :=
   match addrs with
   | [] => ([], d)
   | a :: rest =>
-      let '(o, d1) := spec_deliver cfg d a m in
-      let '(os, d2) := spec_deliver_all cfg d1 rest m in
+      let '(o, d1) := spec_deliver cfg (over a) d a m in
+      let '(os, d2) := spec_deliver_all cfg over d1 rest m in
       (o :: os, d2)
   end.
 
@@ -167,7 +185,7 @@ Definition spec_accepted (cfg : config) (d : db) (addrs : list str) : list str :
 Definition spec_data (cfg : config) (d : db) (acc : list str) (m : message) : list outcome * db :=
   if (max_size cfg <? m_size m) then (map (fun _ => Refused WhySize) acc, d)
   else if negb (m_parse_ok m) then (map (fun _ => Refused WhyMalformed) acc, d)
-  else spec_deliver_all cfg d acc m.
+  else spec_deliver_all cfg (spec_over_quota cfg d m) d acc m.
 
 (** the whole transaction: outcome per RCPT line, database afterwards *)
 Definition spec_txn (cfg : config) (d : db) (addrs : list str) (m : message) : list outcome * db :=
@@ -197,15 +215,3 @@ Fixpoint users_unique (us : list user) : bool :=
   | u :: rest => negb (existsb (user_is (u_name u) (u_domain u)) rest) && users_unique rest
   end.
 Definition wf_db (d : db) : Prop := users_unique (users d) = true.
-
-(* ------------------------------------------------------------------ *)
-(** * finding classes (decidable on the input) *)
-
-Inductive finding := K_quota_not_enforced.
-
-Definition is_quota_refusal (o : outcome) : bool :=
-  match o with Refused WhyQuota => true | _ => false end.
-
-Definition classify (cfg : config) (d : db) (addrs : list str) (m : message) : option finding :=
-  if quota_enabled cfg && existsb is_quota_refusal (fst (spec_data cfg d (spec_accepted cfg d addrs) m))
-  then Some K_quota_not_enforced else None.
